@@ -31,6 +31,15 @@ func IfOf(b *ssa.BasicBlock) *ssa.If {
 // CondEdges returns, for every If in fn whose normalised condition matches
 // pat, the edge on which (normalised base) == want.
 func CondEdges(fn *ssa.Function, pat string, want bool) []Edge {
+	return condEdgesWith(fn, pat, want, Normalize)
+}
+
+// CondEdgesDeep matches against the rendering with call arguments.
+func CondEdgesDeep(fn *ssa.Function, pat string, want bool) []Edge {
+	return condEdgesWith(fn, pat, want, NormalizeDeep)
+}
+
+func condEdgesWith(fn *ssa.Function, pat string, want bool, Normalize func(ssa.Value) NormCond) []Edge {
 	re := regexp.MustCompile(pat)
 	var out []Edge
 	for _, b := range fn.Blocks {
